@@ -75,7 +75,7 @@ impl WorkerState {
         if let Some(limit) = self.configuration.time_limit {
             let life_time = Instant::now() - self.start_time;
             #[cfg(feature = "verif")]
-            let life_time = life_time + crate::verif::clock::offset();
+            let life_time = (Instant::now() + crate::verif::clock::offset()) - self.start_time;
             Some(limit - life_time)
         } else {
             None
@@ -224,6 +224,8 @@ impl WorkerStateRef {
         let allocator =
             ResourceAllocator::new(&configuration.resources, &resource_map, &resource_label_map);
         let now = Instant::now();
+        #[cfg(feature = "verif")]
+        let now = now + crate::verif::clock::offset();
 
         let state = Self::wrap(WorkerState {
             comm,
